@@ -450,7 +450,21 @@ class Samples(BaseSamples):
             x is not None
             for x in [self.log_likelihood, self.log_prior, self.log_q]
         ):
+            # Evidence attached to the set (e.g. by a slice of a larger set or
+            # a dictionary round trip) is carried, not recomputed
+            log_evidence = self.log_evidence
+            log_evidence_error = self.log_evidence_error
             self.compute_weights()
+            if log_evidence is not None:
+                self.log_evidence = self.array_to_namespace(log_evidence)
+                self.evidence = self.xp.exp(self.log_evidence)
+                if log_evidence_error is not None:
+                    self.log_evidence_error = self.array_to_namespace(
+                        log_evidence_error
+                    )
+                    self.evidence_error = (
+                        self.log_evidence_error * self.evidence
+                    )
         else:
             self.log_w = None
             self.weights = None
